@@ -380,6 +380,9 @@ type distrRunner struct {
 	hist []string
 	// statistics
 	distrEpochs, mintEpochs, stakerPaid int
+	zeroPowerEpochs                      int
+	restorePower                         bool
+	savedPower                           *sdkmath.Int // LastTotalPower before zeroTotalPower, restored after the next distribution epoch
 	f17aSeen                             bool
 }
 
@@ -482,6 +485,36 @@ func (r *distrRunner) block(d time.Duration) bool {
 		if new(big.Int).Add(moved, after.FC).Cmp(new(big.Int).Add(before.FC, mintedNow)) != 0 {
 			env.Violate("C17.moved", "not-all-moved", fmt.Sprintf("fee collector %s, moved %s, left %s, minted %s", before.FC, moved, after.FC, mintedNow), r.hist)
 		}
+		// exactly: replay the notifications in order (per notification distribution before mint):
+		// at a distribution end the whole balance leaves the fee collector, at a mint end the
+		// reward enters it. This also holds when the last total power is zero.
+		wantFC, wantMoved := new(big.Int).Set(before.FC), new(big.Int)
+		for _, e := range evs {
+			if e[0] != 'E' {
+				continue
+			}
+			id := strings.Split(e, ":")[1]
+			if id == r.h.distrID {
+				wantMoved.Add(wantMoved, wantFC)
+				wantFC = new(big.Int)
+			}
+			if id == r.h.mintID {
+				wantFC.Add(wantFC, r.h.reward)
+			}
+		}
+		if after.FC.Cmp(wantFC) != 0 || moved.Cmp(wantMoved) != 0 {
+			env.Violate("C17.moved", "not-all-moved", fmt.Sprintf("fee collector %s -> %s (want %s), moved %s (want %s), total power %d", before.FC, after.FC, wantFC, moved, wantMoved, total), r.hist)
+		}
+		if total == 0 {
+			// zero total power: everything to the community pool, nothing else booked
+			env.Eval("C17.zero-power")
+			r.zeroPowerEpochs++
+			dCom := new(big.Int).Sub(after.Community, before.Community)
+			if dCom.Cmp(new(big.Int).Mul(wantMoved, bigPrec)) != 0 || sumBook(after.Commission).Cmp(sumBook(before.Commission)) != 0 ||
+				sumBook(after.Rewards).Cmp(sumBook(before.Rewards)) != 0 {
+				env.Violate("C17.zero-power", "zero-power-booking", fmt.Sprintf("total power 0: community grew by %s, want %s", dCom, new(big.Int).Mul(wantMoved, bigPrec)), r.hist)
+			}
+		}
 		// (3) booked claims add up to exactly the amount moved — the full statement
 		dClaims := new(big.Int).Sub(after.claims(), before.claims())
 		movedDec := new(big.Int).Mul(moved, bigPrec)
@@ -540,6 +573,14 @@ func (r *distrRunner) block(d time.Duration) bool {
 		}
 	}
 	env.Outcome(fmt.Sprintf("block:distr=%d,mint=%d", distrEnded, mintEnded))
+	// random histories: after one zero-power distribution epoch put the stored total back (only if
+	// the dogfood EndBlock has not replaced it meanwhile, so that it still matches the validators)
+	if distrEnded > 0 && r.restorePower && r.savedPower != nil && c.App.StakingKeeper.GetLastTotalPower(c.Ctx).IsZero() {
+		prev := *r.savedPower
+		_ = c.CachedDo(func(ctx sdk.Context) error { c.App.StakingKeeper.SetLastTotalPower(ctx, prev); return nil })
+		r.op("distr.note dogfood.SetLastTotalPower("+prev.String()+")", "ok")
+		r.savedPower = nil
+	}
 	return true
 }
 
@@ -559,6 +600,7 @@ func domDistribution(env *Env) error {
 	// ---- directed regression histories (on the real code): F-17a minimal, F-17b two-AVS staker
 	distrScenarioF17a(env)
 	distrScenarioF17b(env)
+	distrScenarioZeroPower(env)
 
 	ids := []string{epochstypes.DayEpochID, epochstypes.HourEpochID, epochstypes.MinuteEpochID, epochstypes.WeekEpochID} // store (alphabetical) order
 	powerChoices := []int64{100, 101, 150, 1000, 4999}
@@ -628,7 +670,7 @@ func domDistribution(env *Env) error {
 			}
 		}
 		c := distrBoot(h)
-		r := &distrRunner{env: env, c: c, h: h}
+		r := &distrRunner{env: env, c: c, h: h, restorePower: rng.Chance(3, 4)}
 		r.start(fmt.Sprintf("random-%d", hi))
 		nb := 8 + rng.Intn(maxBlocks)
 		nStakers := 0
@@ -653,6 +695,11 @@ func domDistribution(env *Env) error {
 					amt = new(big.Int).Add(rng.BigBelow(pow10(19)), big.NewInt(1))
 				}
 				r.fee(amt)
+			}
+			// zero last total power (what the dogfood EndBlock stores when every validator dropped
+			// out): the next distribution epoch must move the fees and book them to the community pool
+			if rng.Chance(1, 40) {
+				r.zeroTotalPower()
 			}
 			// stakers: deposit + delegate (first asset or the second one)
 			if rng.Chance(1, 4) && nStakers < 6 {
@@ -710,9 +757,44 @@ func domDistribution(env *Env) error {
 		if hi < 2 {
 			env.Sample(strings.Join(r.hist[:min(len(r.hist), 12)], " ; "))
 		}
-		env.Outcome(fmt.Sprintf("history:distr>0=%v,mint>0=%v,stakerpaid>0=%v", r.distrEpochs > 0, r.mintEpochs > 0, r.stakerPaid > 0))
+		env.Outcome(fmt.Sprintf("history:distr>0=%v,mint>0=%v,stakerpaid>0=%v,zeropower>0=%v", r.distrEpochs > 0, r.mintEpochs > 0, r.stakerPaid > 0, r.zeroPowerEpochs > 0))
 	}
 	return nil
+}
+
+// zeroTotalPower stores LastTotalPower = 0 through the dogfood keeper.
+func (r *distrRunner) zeroTotalPower() {
+	c := r.c
+	if prev := c.App.StakingKeeper.GetLastTotalPower(c.Ctx); !prev.IsZero() {
+		r.savedPower = &prev
+	}
+	err := c.CachedDo(func(ctx sdk.Context) error {
+		c.App.StakingKeeper.SetLastTotalPower(ctx, sdkmath.ZeroInt())
+		return nil
+	})
+	r.env.Outcome(fmt.Sprintf("zero-total-power:%v", err == nil))
+	r.op("distr.note dogfood.SetLastTotalPower(0)", "ok")
+}
+
+// distrScenarioZeroPower: distribution epochs at which the last total power is zero, with
+// non-zero fees (and a mint in between): the whole fee-collector balance must still move to the
+// distribution account and be booked to the community pool exactly once.
+func distrScenarioZeroPower(env *Env) {
+	cfg := DefaultCfg(env.Report.Seed*1000 + 902)
+	cfg.EpochID = epochstypes.WeekEpochID
+	h := &distrHistCfg{cfg: cfg, distrID: epochstypes.MinuteEpochID, mintID: epochstypes.MinuteEpochID, reward: big.NewInt(20),
+		tax: new(big.Int).Mul(big.NewInt(2), pow10(16)), rates: []*big.Int{big.NewInt(0), big.NewInt(0)}, shrink: map[string]time.Duration{}}
+	c := distrBoot(h)
+	r := &distrRunner{env: env, c: c, h: h}
+	r.start("scenario-zero-power")
+	r.zeroTotalPower()
+	ok := true
+	for i := 0; i < 3 && ok; i++ {
+		r.fee(big.NewInt(int64(1000 + i)))
+		ok = r.block(61 * time.Second)
+	}
+	env.Report.Histories++
+	env.Outcome(fmt.Sprintf("scenario-zero-power:epochs=%d", r.zeroPowerEpochs))
 }
 
 // distrScenarioF17a (regression for F-17a, repaired): two validators with self-delegation only,
